@@ -78,7 +78,7 @@ def registry_run(repo, modname, cls_name, method, registry, ident='T1'):
             return (True, ('deepcopy', interp.value(call.args[0], e)))
         return None
     try:
-        finals = Interp(call_hook=hook).run(f.body, env)
+        finals = Interp(call_hook=hook, try_normal_path=True).run(f.body, env)
     except Unknown as ex:
         raise AnalysisError('%s.%s cannot be interpreted: %s' % (cls_name, method, ex))
     if len(finals) != 1 or finals[0].get('<forks>') or finals[0].get('<outcome>') == 'raise':
